@@ -30,8 +30,8 @@ def main():
         print("ERROR: %s" % e)
         return 2
     crates = getattr(mod, "CRATES_QUICK", None) if tier == "quick" else getattr(mod, "CRATES_THOROUGH", None)
-    F = factsmod.Facts(d, crates)
     try:
+        F = factsmod.Facts(d, crates)
         mod.run(F, rep, tier)
     except Exception:
         traceback.print_exc()
